@@ -120,4 +120,88 @@ theorem getObservational_of_sim {σ ι α : Type} (B : Bundle σ ι) (R : σ →
   rw [hget a g hg] at e
   exact hout post _ _ a e.1 ha
 
+/-- all calls of a session satisfy the documented preconditions `P` of the bundle -/
+def SessionOk {ι : Type} (P : ι → Prop) (cs : List (Call ι)) : Prop :=
+  ∀ c ∈ cs, match c with | .op i => P i | .reloc => True
+
+/-- `GetObservational` restricted to sessions whose calls satisfy the documented preconditions `P`
+(e.g. `header` has 16 octets, `key_len ∈ {16, 24, 32}`): outside them the C functions are not defined. -/
+def GetObservationalOn {σ ι : Type} (P : ι → Prop) (B : Bundle σ ι) (s0 : σ) : Prop :=
+  ∀ (pre post : List (Call ι)) (g : ι), B.isGet g = true → SessionOk P pre → P g → SessionOk P post →
+    outs B (after B s0 (pre ++ [.op g])) post = outs B (after B s0 pre) post
+
+/-- simulation principle with preconditions: concrete and abstract machine agree on calls satisfying `P` -/
+theorem getObservationalOn_of_sim {σ ι α : Type} (P : ι → Prop) (B : Bundle σ ι) (R : σ → α → Prop)
+    (astep : α → ι → α × Out)
+    (hstep : ∀ s a i, P i → R s a → R (B.step s i).1 (astep a i).1 ∧ (B.step s i).2 = (astep a i).2)
+    (hget : ∀ a g, B.isGet g = true → (astep a g).1 = a)
+    (s0 : σ) (a0 : α) (h0 : R s0 a0) : GetObservationalOn P B s0 := by
+  have hout : ∀ (cs : List (Call ι)), SessionOk P cs → ∀ (s s' : σ) (a : α), R s a → R s' a →
+      outs B s cs = outs B s' cs := by
+    intro cs
+    induction cs with
+    | nil => intros; rfl
+    | cons c cs ih =>
+      intro hok s s' a h h'
+      have hok' : SessionOk P cs := fun x hx => hok x (List.mem_cons_of_mem _ hx)
+      cases c with
+      | reloc =>
+        show Out.none :: (run B s cs).2 = Out.none :: (run B s' cs).2
+        have := ih hok' s s' a h h'
+        simp only [outs] at this
+        rw [this]
+      | op i =>
+        have hi : P i := hok (.op i) (List.mem_cons_self)
+        have e := hstep s a i hi h
+        have e' := hstep s' a i hi h'
+        show (B.step s i).2 :: (run B (B.step s i).1 cs).2 = (B.step s' i).2 :: (run B (B.step s' i).1 cs).2
+        have := ih hok' _ _ _ e.1 e'.1
+        simp only [outs] at this
+        rw [this, e.2, e'.2]
+  have hreach : ∀ (cs : List (Call ι)), SessionOk P cs → ∀ (s : σ) (a : α), R s a → ∃ a', R (after B s cs) a' := by
+    intro cs
+    induction cs with
+    | nil => intro _ s a h; exact ⟨a, h⟩
+    | cons c cs ih =>
+      intro hok s a h
+      have hok' : SessionOk P cs := fun x hx => hok x (List.mem_cons_of_mem _ hx)
+      cases c with
+      | reloc => exact ih hok' s a h
+      | op i => exact ih hok' _ _ (hstep s a i (hok (.op i) (List.mem_cons_self)) h).1
+  intro pre post g hg hpre hPg hpost
+  obtain ⟨a, ha⟩ := hreach pre hpre s0 a0 h0
+  rw [after_append]
+  have e := hstep (after B s0 pre) a g hPg ha
+  rw [hget a g hg] at e
+  exact hout post hpost _ _ a e.1 ha
+
+/-- REFINEMENT of sessions: if a refined machine (state with the scratch fields of the C struct) and an abstract
+one are related by `R`, and every call satisfying `P` preserves `R` and returns the same output, then whole
+sessions return the same outputs. -/
+theorem outs_refine {σ τ ι : Type} (P : ι → Prop) (B : Bundle σ ι) (A : Bundle τ ι) (R : σ → τ → Prop)
+    (hstep : ∀ s a i, P i → R s a → R (B.step s i).1 (A.step a i).1 ∧ (B.step s i).2 = (A.step a i).2)
+    (cs : List (Call ι)) : SessionOk P cs → ∀ (s : σ) (a : τ), R s a →
+      outs B s cs = outs A a cs ∧ R (after B s cs) (after A a cs) := by
+  induction cs with
+  | nil => intro _ s a h; exact ⟨rfl, h⟩
+  | cons c cs ih =>
+    intro hok s a h
+    have hok' : SessionOk P cs := fun x hx => hok x (List.mem_cons_of_mem _ hx)
+    cases c with
+    | reloc =>
+      have := ih hok' s a h
+      refine ⟨?_, this.2⟩
+      show Out.none :: (run B s cs).2 = Out.none :: (run A a cs).2
+      have e := this.1
+      simp only [outs] at e
+      rw [e]
+    | op i =>
+      have e := hstep s a i (hok (.op i) (List.mem_cons_self)) h
+      have := ih hok' _ _ e.1
+      refine ⟨?_, this.2⟩
+      show (B.step s i).2 :: (run B (B.step s i).1 cs).2 = (A.step a i).2 :: (run A (A.step a i).1 cs).2
+      have e2 := this.1
+      simp only [outs] at e2
+      rw [e2, e.2]
+
 end Bee2V.C10
